@@ -3,14 +3,20 @@
 //! (with and without explicit end probabilities) x every observation sequence up to a length
 //! bound, executed on `discrete_emission_opt_end::Model` (and on `discrete_emission::Model` when
 //! there is no end vector) and compared with the enumeration of all S^T state paths.
+//! Appended units: the `with_prob` / `new` constructor routes under the same case function, the
+//! dimension check of the constructors, the state / transition iterators, and a small family on
+//! the continuous (Gaussian) emission model.
 
 use super::Prop;
 use crate::ctx::{guard, CaseCtx, Ctx, Tier};
 use crate::oracles::hmm::{free_vectors, observation_sequences, substochastic_rows, PathStats, Spec};
 use bio::stats::hmm::discrete_emission::Model as PlainModel;
 use bio::stats::hmm::discrete_emission_opt_end::Model as EndModel;
-use bio::stats::hmm::{backward, forward, viterbi, State};
-use bio::stats::LogProb;
+use bio::stats::hmm::univariate_continuous_emission::GaussianModel;
+use bio::stats::hmm::{backward, forward, viterbi, Error as HmmError, Model as HmmModel, State, StateIter, StateTransitionIter};
+use bio::stats::{LogProb, Prob};
+use statrs::distribution::Normal;
+use std::cell::RefCell;
 use ndarray::{Array1, Array2};
 use serde_json::{json, Value};
 
@@ -197,11 +203,36 @@ struct Answers {
     bw: Result<LogProb, String>,
 }
 
-fn check_answers(kind: &str, spec: &Spec, obs: &[usize], st: &PathStats, a: &Answers, cc: &mut CaseCtx) {
+/// what `check_answers` needs from a reference model: the joint probability of one state path
+/// with the observations (with and without the end factor)
+trait Joint<O> {
+    fn n_states(&self) -> usize;
+    fn explicit_end(&self) -> bool;
+    fn joint(&self, path: &[usize], obs: &[O]) -> f64;
+    fn joint_no_end(&self, path: &[usize], obs: &[O]) -> f64;
+}
+
+impl Joint<usize> for Spec {
+    fn n_states(&self) -> usize {
+        self.s
+    }
+    fn explicit_end(&self) -> bool {
+        self.end.is_some()
+    }
+    fn joint(&self, path: &[usize], obs: &[usize]) -> f64 {
+        Spec::joint(self, path, obs)
+    }
+    fn joint_no_end(&self, path: &[usize], obs: &[usize]) -> f64 {
+        Spec::joint_no_end(self, path, obs)
+    }
+}
+
+fn check_answers<O, J: Joint<O>>(kind: &str, spec: &J, obs: &[O], st: &PathStats, a: &Answers, cc: &mut CaseCtx) {
     let t = obs.len();
     let impossible = st.sum == 0.0;
     let rel = lik_tolerance(t);
-    let explicit_end = spec.end.is_some();
+    let explicit_end = spec.explicit_end();
+    let n_states = spec.n_states();
 
     // ---- viterbi
     let mut vit_prob: Option<f64> = None; // linear reported probability, when usable
@@ -217,10 +248,10 @@ fn check_answers(kind: &str, spec: &Spec, obs: &[usize], st: &PathStats, a: &Ans
                     format!("C14/viterbi/{}/nan-or-inf", kind),
                     format!("reported log-probability {:?}", lpv),
                 );
-            } else if pidx.len() != t || pidx.iter().any(|&s| s >= spec.s) {
+            } else if pidx.len() != t || pidx.iter().any(|&s| s >= n_states) {
                 cc.violation(
                     format!("C14/viterbi/{}/path-malformed", kind),
-                    format!("path {:?} for {} observations and {} states", pidx, t, spec.s),
+                    format!("path {:?} for {} observations and {} states", pidx, t, n_states),
                 );
             } else {
                 let v = lpv.exp();
@@ -584,6 +615,601 @@ fn run_long(tier: Tier, ctx: &mut Ctx) {
     }
 }
 
+// ===================================================================== entry points (appended)
+//
+// Everything above runs the algorithms on models built with `with_float`.  The families below
+// cover the other public routes to the same behaviour: the `with_prob` and `new` constructors
+// (the same case function runs on the models they build), the dimension check of `new`, the state
+// and transition iterators, and the continuous-emission model.
+
+fn settle<T, E: std::fmt::Display>(r: Result<Result<T, E>, String>) -> Result<T, String> {
+    match r {
+        Ok(Ok(m)) => Ok(m),
+        Ok(Err(e)) => Err(format!("constructor returned Err: {}", e)),
+        Err(p) => Err(format!("constructor panicked: {}", p)),
+    }
+}
+
+fn ln_of(x: f64) -> LogProb {
+    LogProb::from(Prob(x))
+}
+
+struct Routes {
+    /// the `with_float` models: the route the sweep above checks
+    base: Built,
+    plain: Vec<(&'static str, Result<PlainModel, String>)>,
+    end: Vec<(&'static str, Result<EndModel, String>)>,
+}
+
+fn build_routes(spec: &Spec) -> Routes {
+    let (s, m) = (spec.s, spec.m);
+    let (tf, ef, inf) = (spec.trans_f(), spec.em_f(), spec.init_f());
+    let tr_p = Array2::from_shape_vec((s, s), tf.iter().map(|&x| Prob(x)).collect()).unwrap();
+    let em_p = Array2::from_shape_vec((s, m), ef.iter().map(|&x| Prob(x)).collect()).unwrap();
+    let in_p = Array1::from_vec(inf.iter().map(|&x| Prob(x)).collect());
+    let tr_l = Array2::from_shape_vec((s, s), tf.iter().map(|&x| ln_of(x)).collect()).unwrap();
+    let em_l = Array2::from_shape_vec((s, m), ef.iter().map(|&x| ln_of(x)).collect()).unwrap();
+    let in_l = Array1::from_vec(inf.iter().map(|&x| ln_of(x)).collect());
+    let mut plain = vec![];
+    let mut end = vec![];
+    match spec.end_f() {
+        None => {
+            plain.push(("plain-with_prob", settle(guard(|| PlainModel::with_prob(&tr_p, &em_p, &in_p)))));
+            plain.push(("plain-new", settle(guard(|| PlainModel::new(tr_l.clone(), em_l.clone(), in_l.clone())))));
+            end.push(("opt_end-none-with_prob", settle(guard(|| EndModel::with_prob(&tr_p, &em_p, &in_p, None)))));
+            // "no end state" spelled out: has_end_state = false, every end probability 1
+            let ones = Array1::from_vec(vec![LogProb::ln_one(); s]);
+            end.push((
+                "opt_end-none-new",
+                settle(guard(|| {
+                    EndModel::new(RefCell::new(tr_l.clone()), RefCell::new(em_l.clone()), RefCell::new(in_l.clone()), RefCell::new(ones), false)
+                })),
+            ));
+        }
+        Some(e) => {
+            let e_p = Array1::from_vec(e.iter().map(|&x| Prob(x)).collect());
+            let e_l = Array1::from_vec(e.iter().map(|&x| ln_of(x)).collect());
+            end.push(("opt_end-explicit-with_prob", settle(guard(|| EndModel::with_prob(&tr_p, &em_p, &in_p, Some(&e_p))))));
+            end.push((
+                "opt_end-explicit-new",
+                settle(guard(|| {
+                    EndModel::new(RefCell::new(tr_l.clone()), RefCell::new(em_l.clone()), RefCell::new(in_l.clone()), RefCell::new(e_l), true)
+                })),
+            ));
+        }
+    }
+    Routes { base: build(spec), plain, end }
+}
+
+/// the sweep's case function on the models of the other constructors
+fn check_routes(spec: &Spec, routes: &Routes, obs: &[usize], cc: &mut CaseCtx) {
+    let st = spec.brute(obs);
+    cc.set_nontrivial(st.positive_paths >= 2);
+    for (kind, m) in &routes.plain {
+        match m {
+            Err(msg) => cc.violation(format!("C14/construct/{}/rejected", kind), msg.clone()),
+            Ok(m) => {
+                let a = Answers { vit: guard(|| viterbi(m, obs)), fw: guard(|| forward(m, obs).1), bw: guard(|| backward(m, obs).1) };
+                check_answers(kind, spec, obs, &st, &a, cc);
+            }
+        }
+    }
+    for (kind, m) in &routes.end {
+        match m {
+            Err(msg) => cc.violation(format!("C14/construct/{}/rejected", kind), msg.clone()),
+            Ok(m) => {
+                let a = Answers { vit: guard(|| viterbi(m, obs)), fw: guard(|| forward(m, obs).1), bw: guard(|| backward(m, obs).1) };
+                check_answers(kind, spec, obs, &st, &a, cc);
+            }
+        }
+    }
+}
+
+/// `items` = what an iterator over "all transitions" of an n-state model produced.  Demanded:
+/// every ordered pair (a, b) of states appears exactly once.  Items that name a state >= n are
+/// only counted (see the report of this work package: the iterator as written emits (a, n) at
+/// the end of every row and a row for a = n).
+fn check_transition_items(label: &str, n: usize, items: &[(usize, usize)], exhausted: bool, cc: &mut CaseCtx) {
+    if !exhausted {
+        cc.violation(format!("C14/transitions/{}/does-not-terminate", label), format!("more than {} items for {} states", items.len(), n));
+        return;
+    }
+    let mut seen = vec![0u32; n * n];
+    let mut outside = 0u64;
+    for &(a, b) in items {
+        if a < n && b < n {
+            seen[a * n + b] += 1;
+        } else {
+            outside += 1;
+        }
+    }
+    cc.outcome(&(n, items.len(), outside));
+    cc.count("transition_iter_items_naming_a_state_outside_0..n", outside);
+    if let Some(i) = seen.iter().position(|&c| c == 0) {
+        cc.violation(format!("C14/transitions/{}/pair-missing", label), format!("{} states: pair ({}, {}) never produced; items {:?}", n, i / n, i % n, items));
+    }
+    if let Some(i) = seen.iter().position(|&c| c > 1) {
+        cc.violation(format!("C14/transitions/{}/pair-duplicated", label), format!("{} states: pair ({}, {}) produced {} times; items {:?}", n, i / n, i % n, seen[i], items));
+    }
+}
+
+fn check_state_items(label: &str, n: usize, items: &[usize], exhausted: bool, cc: &mut CaseCtx) {
+    if !exhausted {
+        cc.violation(format!("C14/states/{}/does-not-terminate", label), format!("more than {} items for {} states", items.len(), n));
+        return;
+    }
+    let mut sorted = items.to_vec();
+    sorted.sort();
+    if sorted != (0..n).collect::<Vec<usize>>() {
+        cc.violation(format!("C14/states/{}/not-each-state-once", label), format!("{} states: produced {:?}", n, items));
+    }
+}
+
+fn drain_transitions(it: StateTransitionIter, n: usize) -> (Vec<(usize, usize)>, bool) {
+    let cap = (n + 2) * (n + 2) + 8;
+    let mut v = vec![];
+    for x in it {
+        if v.len() >= cap {
+            return (v, false);
+        }
+        v.push((*x.src, *x.dst));
+    }
+    (v, true)
+}
+
+fn drain_states(it: StateIter, n: usize) -> (Vec<usize>, bool) {
+    let mut v = vec![];
+    for x in it {
+        if v.len() >= n + 8 {
+            return (v, false);
+        }
+        v.push(*x);
+    }
+    (v, true)
+}
+
+/// accessors of one model object against the numerators it was built from
+fn check_model_object<M: HmmModel<usize>>(kind: &str, spec: &Spec, m: &M, cc: &mut CaseCtx) {
+    let n = m.num_states();
+    if n != spec.s {
+        cc.violation(format!("C14/construct/{}/num-states-differs", kind), format!("{} states given, num_states() = {}", spec.s, n));
+        return;
+    }
+    match guard(|| drain_states(m.states(), n)) {
+        Err(p) => cc.violation(format!("C14/states/{}/panic", kind), p),
+        Ok((v, done)) => check_state_items(kind, n, &v, done, cc),
+    }
+    match guard(|| drain_transitions(m.transitions(), n)) {
+        Err(p) => cc.violation(format!("C14/transitions/{}/panic", kind), p),
+        Ok((v, done)) => check_transition_items(kind, n, &v, done, cc),
+    }
+}
+
+/// one case per model: the models of all routes are the same model
+fn check_model(spec: &Spec, routes: &Routes, cc: &mut CaseCtx) {
+    cc.set_nontrivial(spec.s >= 2);
+    let want_end = spec.end.is_some();
+    if let Ok(b) = &routes.base.end_model {
+        check_model_object("opt_end-with_float", spec, b, cc);
+        if b.has_end_state() != want_end {
+            cc.violation("C14/construct/opt_end-with_float/has-end-state-wrong", format!("end vector given: {}, has_end_state() = {}", want_end, b.has_end_state()));
+        }
+    }
+    if let Some(Ok(b)) = &routes.base.plain_model {
+        check_model_object("plain-with_float", spec, b, cc);
+        if b.has_end_state() {
+            cc.violation("C14/construct/plain-with_float/has-end-state-wrong", "a model type without end probabilities reports an end state");
+        }
+    }
+    for (kind, m) in &routes.plain {
+        match m {
+            Err(msg) => cc.violation(format!("C14/construct/{}/rejected", kind), msg.clone()),
+            Ok(m) => {
+                check_model_object(kind, spec, m, cc);
+                if let Some(Ok(b)) = &routes.base.plain_model {
+                    if m != b {
+                        cc.violation(format!("C14/construct/{}/differs-from-with_float", kind), format!("{:?} vs with_float {:?}", m, b));
+                    }
+                }
+            }
+        }
+    }
+    for (kind, m) in &routes.end {
+        match m {
+            Err(msg) => cc.violation(format!("C14/construct/{}/rejected", kind), msg.clone()),
+            Ok(m) => {
+                check_model_object(kind, spec, m, cc);
+                if m.has_end_state() != want_end {
+                    cc.violation(format!("C14/construct/{}/has-end-state-wrong", kind), format!("end vector given: {}, has_end_state() = {}", want_end, m.has_end_state()));
+                }
+                if let Ok(b) = &routes.base.end_model {
+                    if m != b {
+                        cc.violation(format!("C14/construct/{}/differs-from-with_float", kind), format!("{:?} vs with_float {:?}", m, b));
+                    }
+                }
+            }
+        }
+    }
+}
+
+const ROUTES_QUICK: &[Family] = &[
+    Family { name: "routes-s1m2-quarters", s: 1, m: 2, den: 4, tmax: 4, ends: Ends::Full, em_step: 1, shards: 1 },
+    Family { name: "routes-s2m2-halves", s: 2, m: 2, den: 2, tmax: 3, ends: Ends::Few, em_step: 1, shards: 1 },
+];
+const ROUTES_THOROUGH: &[Family] = &[
+    Family { name: "routes-s1m2-quarters", s: 1, m: 2, den: 4, tmax: 6, ends: Ends::Full, em_step: 1, shards: 1 },
+    Family { name: "routes-s2m2-halves", s: 2, m: 2, den: 2, tmax: 4, ends: Ends::Full, em_step: 1, shards: 1 },
+    Family { name: "routes-s3m1-halves", s: 3, m: 1, den: 2, tmax: 3, ends: Ends::Few, em_step: 1, shards: 1 },
+];
+const ROUTE_SHARDS: usize = 4;
+
+fn route_families(tier: Tier) -> &'static [Family] {
+    tier.pick(ROUTES_QUICK, ROUTES_THOROUGH)
+}
+
+fn describe_as(kind: &str, spec: &Spec, obs: &[usize]) -> Value {
+    let mut v = describe(spec, obs);
+    v["kind"] = json!(kind);
+    v
+}
+
+fn run_routes(tier: Tier, shard: usize, ctx: &mut Ctx) {
+    for fam in route_families(tier) {
+        let space = Space::new(*fam);
+        for idx in 0..space.models() {
+            if shard_of(idx, ROUTE_SHARDS) != shard {
+                continue;
+            }
+            if ctx.res.capped {
+                return;
+            }
+            let spec = space.model(idx);
+            let routes = build_routes(&spec);
+            ctx.case(|| describe_as("hmm-model", &spec, &[]), |cc| check_model(&spec, &routes, cc));
+            for obs in &space.obs {
+                ctx.case(|| describe_as("hmm-routes", &spec, obs), |cc| check_routes(&spec, &routes, obs, cc));
+            }
+        }
+    }
+}
+
+// ------------------------------------------------------------------------- dimension check
+
+fn shape_dim(tier: Tier) -> usize {
+    tier.pick(3, 5)
+}
+
+/// every constructor of both discrete models on arrays of the given shapes (all entries 1/2):
+/// Ok exactly when A is square and A, B and pi agree on the number of states, otherwise
+/// Err(InvalidDimension) carrying the five numbers it names; never a panic
+fn check_shape(a0: usize, a1: usize, bn: usize, bm: usize, pin: usize, cc: &mut CaseCtx) {
+    let consistent = a0 == a1 && a0 == bn && a0 == pin;
+    cc.set_nontrivial(!consistent);
+    let h = 0.5f64;
+    let (tr_f, em_f, in_f, en_f) = (Array2::from_elem((a0, a1), h), Array2::from_elem((bn, bm), h), Array1::from_elem(pin, h), Array1::from_elem(pin, h));
+    let (tr_p, em_p, in_p, en_p) = (tr_f.map(|&x| Prob(x)), em_f.map(|&x| Prob(x)), in_f.map(|&x| Prob(x)), en_f.map(|&x| Prob(x)));
+    let (tr_l, em_l, in_l, en_l) = (tr_f.map(|&x| ln_of(x)), em_f.map(|&x| ln_of(x)), in_f.map(|&x| ln_of(x)), en_f.map(|&x| ln_of(x)));
+    let cell = |a: &Array2<LogProb>| RefCell::new(a.clone());
+    let cell1 = |a: &Array1<LogProb>| RefCell::new(a.clone());
+    // (route, outcome: Ok(num_states) | Err(error))
+    let results: Vec<(&str, Result<Result<usize, HmmError>, String>)> = vec![
+        ("plain-new", guard(|| PlainModel::new(tr_l.clone(), em_l.clone(), in_l.clone()).map(|m| m.num_states()))),
+        ("plain-with_prob", guard(|| PlainModel::with_prob(&tr_p, &em_p, &in_p).map(|m| m.num_states()))),
+        ("plain-with_float", guard(|| PlainModel::with_float(&tr_f, &em_f, &in_f).map(|m| m.num_states()))),
+        ("opt_end-new", guard(|| EndModel::new(cell(&tr_l), cell(&em_l), cell1(&in_l), cell1(&en_l), true).map(|m| m.num_states()))),
+        ("opt_end-none-with_prob", guard(|| EndModel::with_prob(&tr_p, &em_p, &in_p, None).map(|m| m.num_states()))),
+        ("opt_end-explicit-with_prob", guard(|| EndModel::with_prob(&tr_p, &em_p, &in_p, Some(&en_p)).map(|m| m.num_states()))),
+        ("opt_end-none-with_float", guard(|| EndModel::with_float(&tr_f, &em_f, &in_f, None).map(|m| m.num_states()))),
+        ("opt_end-explicit-with_float", guard(|| EndModel::with_float(&tr_f, &em_f, &in_f, Some(&en_f)).map(|m| m.num_states()))),
+    ];
+    for (route, r) in results {
+        judge_shape(route, consistent, (a0, a1, bn, bm, pin), r, cc);
+    }
+}
+
+fn judge_shape(route: &str, consistent: bool, dims: (usize, usize, usize, usize, usize), r: Result<Result<usize, HmmError>, String>, cc: &mut CaseCtx) {
+    let (a0, a1, bn, bm, pin) = dims;
+    let shape = format!("A {}x{}, B {}x{}, pi {}", a0, a1, bn, bm, pin);
+    match r {
+        Err(p) => cc.violation(format!("C14/construct/{}/dimension-check-panic", route), format!("{}: {}", shape, p)),
+        Ok(Ok(n)) => {
+            cc.outcome(&(route, true));
+            if !consistent {
+                cc.violation(format!("C14/construct/{}/invalid-dimension-accepted", route), format!("{} gave a model with {} states", shape, n));
+            } else if n != a0 {
+                cc.violation(format!("C14/construct/{}/num-states-differs", route), format!("{}: num_states() = {}", shape, n));
+            }
+        }
+        Ok(Err(e)) => {
+            cc.outcome(&(route, false));
+            if consistent {
+                cc.violation(format!("C14/construct/{}/valid-dimension-rejected", route), format!("{}: {}", shape, e));
+            } else {
+                let HmmError::InvalidDimension { an0, an1, bn: ebn, bm: ebm, pin: epin } = e;
+                if (an0, an1, ebn, ebm, epin) != dims {
+                    cc.violation(format!("C14/construct/{}/invalid-dimension-fields-wrong", route), format!("{}: error says {}", shape, e));
+                }
+            }
+        }
+    }
+}
+
+/// the stand-alone iterator constructors
+fn check_iter_ctor(n: usize, cc: &mut CaseCtx) {
+    cc.set_nontrivial(n >= 2);
+    match guard(|| drain_states(StateIter::new(n), n)) {
+        Err(p) => cc.violation("C14/states/StateIter-new/panic", p),
+        Ok((v, done)) => check_state_items("StateIter-new", n, &v, done, cc),
+    }
+    match guard(|| drain_transitions(StateTransitionIter::new(n), n)) {
+        Err(p) => cc.violation("C14/transitions/StateTransitionIter-new/panic", p),
+        Ok((v, done)) => check_transition_items("StateTransitionIter-new", n, &v, done, cc),
+    }
+}
+
+fn normal_dists(n: usize) -> Vec<Normal> {
+    (0..n).map(|i| Normal::new(i as f64, 1.0).unwrap()).collect()
+}
+
+/// dimension check of the continuous-emission constructors (B is a list of bn distributions)
+fn check_gauss_shape(a0: usize, a1: usize, bn: usize, pin: usize, cc: &mut CaseCtx) {
+    let consistent = a0 == a1 && a0 == bn && a0 == pin;
+    cc.set_nontrivial(!consistent);
+    let h = 0.5f64;
+    let (tr_f, in_f) = (Array2::from_elem((a0, a1), h), Array1::from_elem(pin, h));
+    let (tr_p, in_p) = (tr_f.map(|&x| Prob(x)), in_f.map(|&x| Prob(x)));
+    let (tr_l, in_l) = (tr_f.map(|&x| ln_of(x)), in_f.map(|&x| ln_of(x)));
+    let results: Vec<(&str, Result<Result<usize, HmmError>, String>)> = vec![
+        ("gauss-new", guard(|| GaussianModel::new(tr_l.clone(), normal_dists(bn), in_l.clone()).map(|m| m.num_states()))),
+        ("gauss-with_prob", guard(|| GaussianModel::with_prob(&tr_p, normal_dists(bn), &in_p).map(|m| m.num_states()))),
+        ("gauss-with_float", guard(|| GaussianModel::with_float(&tr_f, normal_dists(bn), &in_f).map(|m| m.num_states()))),
+    ];
+    for (route, r) in results {
+        // the error reports the number of distributions as both N and M of B
+        judge_shape(route, consistent, (a0, a1, bn, bn, pin), r, cc);
+    }
+}
+
+fn run_shapes(tier: Tier, ctx: &mut Ctx) {
+    let d = shape_dim(tier);
+    for n in 0..=(2 * d + 2) {
+        ctx.case(|| json!({"kind": "iter-ctor", "n": n}), |cc| check_iter_ctor(n, cc));
+    }
+    for v in gen_shapes(d) {
+        let (a0, a1, bn, pin) = (v[0], v[1], v[2], v[3]);
+        for bm in 0..=2usize {
+            ctx.case(|| json!({"kind": "shape", "a0": a0, "a1": a1, "bn": bn, "bm": bm, "pin": pin}), |cc| check_shape(a0, a1, bn, bm, pin, cc));
+        }
+        ctx.case(|| json!({"kind": "gauss-shape", "a0": a0, "a1": a1, "bn": bn, "pin": pin}), |cc| check_gauss_shape(a0, a1, bn, pin, cc));
+    }
+}
+
+/// all (a0, a1, bn, pin) in 0..=d
+fn gen_shapes(d: usize) -> Vec<[usize; 4]> {
+    let mut v = vec![];
+    for a0 in 0..=d {
+        for a1 in 0..=d {
+            for bn in 0..=d {
+                for pin in 0..=d {
+                    v.push([a0, a1, bn, pin]);
+                }
+            }
+        }
+    }
+    v
+}
+
+// ------------------------------------------------------------- continuous (Gaussian) emissions
+//
+// Outside the statement of C14 (which names the two discrete models); kept small.  Same oracle:
+// enumeration of all state paths, the emission factor being the normal density.  The products are
+// no longer exact, but their rounding (~1e-15 relative) is far inside the tolerances.
+
+/// (mean, standard deviation): densities stay below 1 and above 1e-9 on GAUSS_OBS
+const GAUSS_DISTS: &[(f64, f64)] = &[(0.0, 1.0), (2.0, 0.5), (-1.0, 1.0)];
+const GAUSS_OBS: &[f64] = &[-1.0, 0.0, 0.5, 2.0];
+
+#[derive(Clone, Debug)]
+struct GSpec {
+    s: usize,
+    den: u32,
+    trans: Vec<u8>,
+    init: Vec<u8>,
+    /// per state (mean, sd)
+    dists: Vec<(f64, f64)>,
+}
+
+fn normal_pdf(mean: f64, sd: f64, x: f64) -> f64 {
+    let z = (x - mean) / sd;
+    (-0.5 * z * z).exp() / (sd * (2.0 * std::f64::consts::PI).sqrt())
+}
+
+impl Joint<f64> for GSpec {
+    fn n_states(&self) -> usize {
+        self.s
+    }
+    fn explicit_end(&self) -> bool {
+        false
+    }
+    fn joint(&self, path: &[usize], obs: &[f64]) -> f64 {
+        self.joint_no_end(path, obs)
+    }
+    fn joint_no_end(&self, path: &[usize], obs: &[f64]) -> f64 {
+        let f = |k: u8| k as f64 / self.den as f64;
+        let em = |st: usize, x: f64| normal_pdf(self.dists[st].0, self.dists[st].1, x);
+        let mut p = f(self.init[path[0]]) * em(path[0], obs[0]);
+        for i in 1..obs.len() {
+            p *= f(self.trans[path[i - 1] * self.s + path[i]]);
+            p *= em(path[i], obs[i]);
+        }
+        p
+    }
+}
+
+impl GSpec {
+    fn brute(&self, obs: &[f64]) -> PathStats {
+        let t = obs.len();
+        let mut st = PathStats::default();
+        let mut path = vec![0usize; t];
+        loop {
+            let p = self.joint_no_end(&path, obs);
+            st.paths += 1;
+            st.sum += p;
+            st.max = st.max.max(p);
+            st.max_no_end = st.max;
+            if p > 0.0 {
+                st.positive_paths += 1;
+            }
+            let mut i = t;
+            loop {
+                if i == 0 {
+                    return st;
+                }
+                i -= 1;
+                path[i] += 1;
+                if path[i] < self.s {
+                    break;
+                }
+                path[i] = 0;
+            }
+        }
+    }
+}
+
+fn build_gauss(g: &GSpec) -> Vec<(&'static str, Result<GaussianModel, String>)> {
+    let s = g.s;
+    let f = |k: u8| k as f64 / g.den as f64;
+    let tf: Vec<f64> = g.trans.iter().map(|&k| f(k)).collect();
+    let inf: Vec<f64> = g.init.iter().map(|&k| f(k)).collect();
+    let dists = || -> Vec<Normal> { g.dists.iter().map(|&(m, sd)| Normal::new(m, sd).unwrap()).collect() };
+    let tr_f = Array2::from_shape_vec((s, s), tf.clone()).unwrap();
+    let in_f = Array1::from_vec(inf.clone());
+    let tr_p = tr_f.map(|&x| Prob(x));
+    let in_p = in_f.map(|&x| Prob(x));
+    let tr_l = tr_f.map(|&x| ln_of(x));
+    let in_l = in_f.map(|&x| ln_of(x));
+    vec![
+        ("gauss-with_float", settle(guard(|| GaussianModel::with_float(&tr_f, dists(), &in_f)))),
+        ("gauss-with_prob", settle(guard(|| GaussianModel::with_prob(&tr_p, dists(), &in_p)))),
+        ("gauss-new", settle(guard(|| GaussianModel::new(tr_l, dists(), in_l)))),
+    ]
+}
+
+fn check_gauss(g: &GSpec, models: &[(&'static str, Result<GaussianModel, String>)], obs: &[f64], cc: &mut CaseCtx) {
+    let st = g.brute(obs);
+    cc.set_nontrivial(st.positive_paths >= 2);
+    for (kind, m) in models {
+        match m {
+            Err(msg) => cc.violation(format!("C14/construct/{}/rejected", kind), msg.clone()),
+            Ok(m) => {
+                let a = Answers { vit: guard(|| viterbi(m, obs)), fw: guard(|| forward(m, obs).1), bw: guard(|| backward(m, obs).1) };
+                check_answers(kind, g, obs, &st, &a, cc);
+            }
+        }
+    }
+}
+
+fn check_gauss_model(g: &GSpec, models: &[(&'static str, Result<GaussianModel, String>)], cc: &mut CaseCtx) {
+    cc.set_nontrivial(g.s >= 2);
+    let base = models[0].1.as_ref().ok();
+    for (kind, m) in models {
+        match m {
+            Err(msg) => cc.violation(format!("C14/construct/{}/rejected", kind), msg.clone()),
+            Ok(m) => {
+                let n = m.num_states();
+                if n != g.s {
+                    cc.violation(format!("C14/construct/{}/num-states-differs", kind), format!("{} states given, num_states() = {}", g.s, n));
+                    continue;
+                }
+                if m.has_end_state() {
+                    cc.violation(format!("C14/construct/{}/has-end-state-wrong", kind), "a model type without end probabilities reports an end state");
+                }
+                match guard(|| drain_states(m.states(), n)) {
+                    Err(p) => cc.violation(format!("C14/states/{}/panic", kind), p),
+                    Ok((v, done)) => check_state_items(kind, n, &v, done, cc),
+                }
+                match guard(|| drain_transitions(m.transitions(), n)) {
+                    Err(p) => cc.violation(format!("C14/transitions/{}/panic", kind), p),
+                    Ok((v, done)) => check_transition_items(kind, n, &v, done, cc),
+                }
+                if let Some(b) = base {
+                    if m != b {
+                        cc.violation(format!("C14/construct/{}/differs-from-with_float", kind), format!("{:?} vs with_float {:?}", m, b));
+                    }
+                }
+            }
+        }
+    }
+}
+
+fn gauss_tmax(tier: Tier) -> usize {
+    tier.pick(3, 4)
+}
+
+fn gauss_obs(tmax: usize) -> Vec<Vec<f64>> {
+    observation_sequences(GAUSS_OBS.len(), 1, tmax).into_iter().map(|o| o.into_iter().map(|i| GAUSS_OBS[i]).collect()).collect()
+}
+
+/// all n-tuples over 0..radix
+fn tuples(radix: usize, n: usize) -> Vec<Vec<usize>> {
+    let mut v = vec![];
+    crate::gen::odometer(&vec![radix; n], |d| v.push(d.to_vec()));
+    v
+}
+
+fn gauss_specs() -> Vec<GSpec> {
+    let mut v = vec![];
+    for s in 1..=2usize {
+        let rows = substochastic_rows(s, 2);
+        // all S-tuples of rows / of distributions
+        let row_tuples = tuples(rows.len(), s);
+        let dist_tuples = tuples(GAUSS_DISTS.len(), s);
+        for rt in &row_tuples {
+            let trans: Vec<u8> = rt.iter().flat_map(|&i| rows[i].clone()).collect();
+            for init in &rows {
+                for dt in &dist_tuples {
+                    v.push(GSpec { s, den: 2, trans: trans.clone(), init: init.clone(), dists: dt.iter().map(|&i| GAUSS_DISTS[i]).collect() });
+                }
+            }
+        }
+    }
+    v
+}
+
+fn describe_gauss(kind: &str, g: &GSpec, obs: &[f64]) -> Value {
+    json!({
+        "kind": kind, "states": g.s, "den": g.den, "trans": rows(&g.trans, g.s), "init": g.init,
+        "dists_mean_sd": g.dists.iter().map(|d| vec![d.0, d.1]).collect::<Vec<_>>(), "obs": obs,
+    })
+}
+
+fn undescribe_gauss(case: &Value) -> Option<(GSpec, Vec<f64>)> {
+    let s = case["states"].as_u64()? as usize;
+    let den = case["den"].as_u64()? as u32;
+    let trans: Vec<u8> = case["trans"].as_array()?.iter().flat_map(u8s).collect();
+    let init = u8s(&case["init"]);
+    let dists: Vec<(f64, f64)> = case["dists_mean_sd"].as_array()?.iter().filter_map(|d| Some((d[0].as_f64()?, d[1].as_f64()?))).collect();
+    let obs: Vec<f64> = case["obs"].as_array()?.iter().filter_map(|x| x.as_f64()).collect();
+    if s == 0 || den == 0 || trans.len() != s * s || init.len() != s || dists.len() != s || dists.iter().any(|d| !(d.1 > 0.0)) {
+        return None;
+    }
+    Some((GSpec { s, den, trans, init, dists }, obs))
+}
+
+fn run_gauss(tier: Tier, ctx: &mut Ctx) {
+    let obs = gauss_obs(gauss_tmax(tier));
+    for g in gauss_specs() {
+        if ctx.res.capped {
+            return;
+        }
+        let models = build_gauss(&g);
+        ctx.case(|| describe_gauss("gauss-model", &g, &[]), |cc| check_gauss_model(&g, &models, cc));
+        for o in &obs {
+            ctx.case(|| describe_gauss("gauss", &g, o), |cc| check_gauss(&g, &models, o, cc));
+        }
+    }
+}
+
 fn unit_table(tier: Tier) -> Vec<(Family, usize)> {
     let mut v = vec![];
     for f in families(tier) {
@@ -602,7 +1228,7 @@ impl Prop for C14Prop {
         "exploration"
     }
     fn rule(&self) -> &'static str {
-        "Complete sweep, per family (S states, M symbols, lattice denominator d, length bound T): every model whose transition rows, emission rows and initial vector are sub-stochastic vectors of multiples of 1/d (zero rows and zero vectors included), combined with 'no end vector' and with every end vector of multiples of 1/d (families marked 'few': a fixed handful), times every observation sequence of length 1..T; one case = one (model, observation sequence) pair, each enumerated once. Models without end vector are run on both discrete_emission::Model and discrete_emission_opt_end::Model. Non-trivial: at least two state paths have positive joint probability with the observations. Plus a long-sequence family (14 fixed models x 4 observation shapes x lengths 64..1000/3000, every length 300..345 and 700..760 in the thorough tier) checked against a log-space recursion; non-trivial there: T >= 300 and the sequence is possible."
+        "Complete sweep, per family (S states, M symbols, lattice denominator d, length bound T): every model whose transition rows, emission rows and initial vector are sub-stochastic vectors of multiples of 1/d (zero rows and zero vectors included), combined with 'no end vector' and with every end vector of multiples of 1/d (families marked 'few': a fixed handful), times every observation sequence of length 1..T; one case = one (model, observation sequence) pair, each enumerated once. Models without end vector are run on both discrete_emission::Model and discrete_emission_opt_end::Model. Non-trivial: at least two state paths have positive joint probability with the observations. Plus a long-sequence family (14 fixed models x 4 observation shapes x lengths 64..1000/3000, every length 300..345 and 700..760 in the thorough tier) checked against a log-space recursion; non-trivial there: T >= 300 and the sequence is possible. Entry-point families (appended units): (a) constructor routes — every model of the listed route families is also built through with_prob and new of both discrete model types (end = None / has_end_state = false with all end probabilities 1 for models without end vector) and the same case function runs on each of these models for every observation sequence; one extra case per model compares the objects (== the with_float model, has_end_state(), num_states(), states() and transitions()); (b) every shape (rows and columns of A, rows of B, length of pi in 0..=D, columns of B in 0..=2) through all eight discrete constructors and all (A, number of distributions, pi) shapes through the three continuous-emission constructors: Ok exactly for consistent shapes, otherwise Err(InvalidDimension) naming the given numbers, never a panic (non-trivial: inconsistent shape); StateIter::new(n) and StateTransitionIter::new(n) for n = 0..=2D+2; (c) univariate_continuous_emission::GaussianModel: all models with 1-2 states over the halves lattice, three normal distributions, every observation sequence over four real values up to the length bound, all three constructors, same path-enumeration oracle with the normal density as emission factor."
     }
     fn assumptions(&self) -> Vec<&'static str> {
         vec![
@@ -613,6 +1239,11 @@ impl Prop for C14Prop {
             "impossible observation sequences (path sum exactly 0) must give exactly ln p = -inf from all three functions",
             "the statement quantifies over real-valued matrices; what is decided is its restriction to the dyadic lattices listed in the bounds",
             "end probabilities are not required to complement the transition row sums (the library does not require it either)",
+            "with_prob / new are required to be equivalent routes to with_float: same answers under the same oracle, and the model objects compare equal (all three convert a probability p with the same LogProb::from(Prob(p)))",
+            "transitions(): only what the rustdoc promises is demanded — every ordered pair of states of the model appears exactly once; items that name a state index >= num_states() are counted in the evidence (extra counter) but not judged",
+            "states(): every state exactly once (order not constrained)",
+            "InvalidDimension: the error must carry the dimensions it names (its Display text presents them as N_0, N_1 of A, N and M of B, N of pi); the continuous model reports the number of distributions as both N and M of B; the length of an explicit end vector is not checked by the library and not varied here",
+            "Gaussian family: outside the statement (it names the discrete models), kept as a small additional family; oracle products are not exact there but their rounding (~1e-15) is far inside the tolerances; densities are computed by the check's own formula exp(-z^2/2)/(sd*sqrt(2 pi))",
         ]
     }
     fn bounds(&self, tier: Tier) -> Value {
@@ -631,17 +1262,45 @@ impl Prop for C14Prop {
                 })
             })
             .collect();
-        json!({ "families": fams, "long_sequences": {"models": long_specs().len(), "lengths": long_lengths(tier), "observation_shapes": "all 0, all 1, alternating, half/half", "oracle": "log-space forward and max-plus recursion with libm exp/ln"} })
+        let route_fams: Vec<Value> = route_families(tier)
+            .iter()
+            .map(|f| {
+                let sp = Space::new(*f);
+                json!({
+                    "family": f.name, "states": f.s, "symbols": f.m, "lattice": format!("multiples of 1/{}", f.den),
+                    "observation_lengths": format!("1..={}", f.tmax),
+                    "end_vectors": match f.ends { Ends::Full => "none + all lattice vectors", Ends::Few => "none + 5 fixed vectors (few)" },
+                    "routes": "models without end vector: discrete_emission::{with_prob,new}, discrete_emission_opt_end::{with_prob(None), new(.., ones, false)}; with end vector: discrete_emission_opt_end::{with_prob(Some), new(.., end, true)}",
+                    "models": sp.models(), "cases": sp.models() * (sp.obs.len() as u64 + 1),
+                })
+            })
+            .collect();
+        let d = shape_dim(tier);
+        json!({ "families": fams,
+            "constructor_routes": route_fams,
+            "dimension_shapes": {"A_rows, A_cols, B_rows, pi_len": format!("0..={}", d), "B_cols": "0..=2", "discrete_constructors": 8, "continuous_constructors": 3, "iterator_constructors_n": format!("0..={}", 2 * d + 2)},
+            "gaussian": {"states": "1..=2", "lattice": "multiples of 1/2", "distributions_mean_sd": GAUSS_DISTS, "observation_values": GAUSS_OBS, "observation_lengths": format!("1..={}", gauss_tmax(tier)), "models": gauss_specs().len(), "constructors": ["with_float", "with_prob", "new"]},
+            "long_sequences": {"models": long_specs().len(), "lengths": long_lengths(tier), "observation_shapes": "all 0, all 1, alternating, half/half", "oracle": "log-space forward and max-plus recursion with libm exp/ln"} })
     }
     fn units(&self, tier: Tier) -> Vec<String> {
         let mut v: Vec<String> = unit_table(tier).iter().map(|(f, sh)| format!("{}-{}", f.name, sh)).collect();
         v.push("long-sequences".into());
+        v.extend((0..ROUTE_SHARDS).map(|i| format!("constructor-routes-{}", i)));
+        v.push("dimensions-and-iterators".into());
+        v.push("gaussian-emissions".into());
         v
     }
     fn run_unit(&self, tier: Tier, unit: usize, ctx: &mut Ctx) {
         let table = unit_table(tier);
         if unit >= table.len() {
-            return run_long(tier, ctx);
+            // appended units: long sequences, then the entry-point families
+            return match unit - table.len() {
+                0 => run_long(tier, ctx),
+                k if k <= ROUTE_SHARDS => run_routes(tier, k - 1, ctx),
+                k if k == ROUTE_SHARDS + 1 => run_shapes(tier, ctx),
+                k if k == ROUTE_SHARDS + 2 => run_gauss(tier, ctx),
+                _ => {}
+            };
         }
         let (fam, sh) = table[unit];
         run_family(fam, sh, ctx);
@@ -656,6 +1315,49 @@ impl Prop for C14Prop {
             let obs = long_obs(shape, t);
             ctx.case(|| case.clone(), |cc| check_long(spec, &obs, cc));
             return;
+        }
+        let us = |k: &str| case[k].as_u64().unwrap_or(0) as usize;
+        match case["kind"].as_str().unwrap_or("") {
+            "iter-ctor" => return ctx.case(|| case.clone(), |cc| check_iter_ctor(us("n").min(64), cc)),
+            "shape" => return ctx.case(|| case.clone(), |cc| check_shape(us("a0").min(16), us("a1").min(16), us("bn").min(16), us("bm").min(16), us("pin").min(16), cc)),
+            "gauss-shape" => return ctx.case(|| case.clone(), |cc| check_gauss_shape(us("a0").min(16), us("a1").min(16), us("bn").min(16), us("pin").min(16), cc)),
+            "gauss" | "gauss-model" => {
+                return match undescribe_gauss(case) {
+                    Some((g, obs)) => {
+                        let models = build_gauss(&g);
+                        if case["kind"] == "gauss-model" {
+                            ctx.case(|| case.clone(), |cc| check_gauss_model(&g, &models, cc))
+                        } else if obs.is_empty() {
+                            ctx.case(|| case.clone(), |cc| cc.violation("C14/replay/malformed-case", "no observations"))
+                        } else {
+                            ctx.case(|| case.clone(), |cc| check_gauss(&g, &models, &obs, cc))
+                        }
+                    }
+                    None => ctx.case(|| case.clone(), |cc| cc.violation("C14/replay/malformed-case", "case description cannot be decoded")),
+                };
+            }
+            "hmm-model" => {
+                // same fields as "hmm", without observations
+                let mut with_obs = case.clone();
+                with_obs["obs"] = json!([0]);
+                return match undescribe(&with_obs) {
+                    Some((spec, _)) => {
+                        let routes = build_routes(&spec);
+                        ctx.case(|| case.clone(), |cc| check_model(&spec, &routes, cc))
+                    }
+                    None => ctx.case(|| case.clone(), |cc| cc.violation("C14/replay/malformed-case", "case description cannot be decoded")),
+                };
+            }
+            "hmm-routes" => {
+                return match undescribe(case) {
+                    Some((spec, obs)) => {
+                        let routes = build_routes(&spec);
+                        ctx.case(|| case.clone(), |cc| check_routes(&spec, &routes, &obs, cc))
+                    }
+                    None => ctx.case(|| case.clone(), |cc| cc.violation("C14/replay/malformed-case", "case description cannot be decoded")),
+                };
+            }
+            _ => {}
         }
         match undescribe(case) {
             Some((spec, obs)) => {
